@@ -270,7 +270,7 @@ func LiveMPD(a *asset, mpdName string, cfg *ResponseConfig, drmCfg *drm.DrmConfi
 				return nil, fmt.Errorf("adjustASForTimelineTime: %w", err)
 			}
 			if asIdx == 0 {
-				mpd.PublishTime = m.ConvertToDateTime(calcPublishTime(cfg, se.lsi))
+				mpd.PublishTime = publishTimeToDateTime(calcPublishTime(cfg, se.lsi))
 			}
 		case timeLineNumber:
 			err := adjustAdaptationSetForTimelineNr(se, as, cfg.getStartNr())
@@ -278,7 +278,7 @@ func LiveMPD(a *asset, mpdName string, cfg *ResponseConfig, drmCfg *drm.DrmConfi
 				return nil, fmt.Errorf("adjustASForTimelineNr: %w", err)
 			}
 			if asIdx == 0 {
-				mpd.PublishTime = m.ConvertToDateTime(calcPublishTime(cfg, se.lsi))
+				mpd.PublishTime = publishTimeToDateTime(calcPublishTime(cfg, se.lsi))
 			}
 		case segmentNumber:
 			err := adjustAdaptationSetForSegmentNumber(cfg, a, as)
@@ -693,6 +693,12 @@ func addTimeSubs(cfg *ResponseConfig, a *asset, period *m.Period, languages []st
 		period.AppendAdaptationSet(as)
 	}
 	return nil
+}
+
+// publishTimeToDateTime converts seconds to a DateTime rounded (not cropped) to milliseconds,
+// so that e.g. 2.002 s is not written as 2.001 s.
+func publishTimeToDateTime(seconds float64) m.DateTime {
+	return m.ConvertToDateTimeMS(int64(math.Round(seconds * 1000)))
 }
 
 // calcPublishTime calculates the last time there was a change in the manifest in seconds.
